@@ -5,6 +5,16 @@ import vlib, corpus, trace
 
 
 def _probe(job):
+    vlib.alarm(900)
+    try:
+        return _probe_inner(job)
+    except vlib.WorkerHang:
+        return {"path": job[0], "argv": job[1], "probes": [{"rule": "any", "exception": "WorkerHang: the fix run with probes did not finish within 900 s"}], "status": "ok", "applications": 0}
+    finally:
+        vlib.alarm(0)
+
+
+def _probe_inner(job):
     import observe, tracer
     from vsg import config, rule_list, vhdlFile, apply_rules
     from vsg.vhdlFile import utils as vu
